@@ -75,6 +75,11 @@ def check(ctx):
     ctx.samples.append({"calls": script[1:6]})
     t = ctx.drive(drv, script, "codec")
     bad = ctx.judge("CodecTrace", [t], shards=16)
+    # the second build configuration (size-optimised, plain char unsigned) on part of the executions
+    ta = ctx.drive(ctx.cxx("drv_codec_alt", ["drv_codec.cpp", R + "/igris/util/hexascii.c", R + "/igris/string/hexascii_string.cpp", R + "/igris/util/base64.cpp"], alt=True), core.subset_executions(script, ctx.seed, 1.0 if ctx.thorough else 0.34), "codec_alt")
+    bada = ctx.judge("CodecTrace", [ta], shards=16)
+    for b in bada: b["driver"] = "drv_codec@alt"
+    bad += bada
     for b in bad: b["driver"] = "drv_codec"
     ctx.report(bad)
     ctx.assumptions += [
@@ -87,7 +92,7 @@ def check(ctx):
 def replay(ctx, path):
     d = json.load(open(path))
     R = core.REPO
-    drv = ctx.cxx("drv_codec", ["drv_codec.cpp", R + "/igris/util/hexascii.c", R + "/igris/string/hexascii_string.cpp", R + "/igris/util/base64.cpp"])
+    drv = ctx.cxx("drv_codec", ["drv_codec.cpp", R + "/igris/util/hexascii.c", R + "/igris/string/hexascii_string.cpp", R + "/igris/util/base64.cpp"], alt=core.is_alt(d))
     e = d["event"]
     if e.get("e") == "Fault":
         return core.replay_fault(ctx, d, drv, "CodecTrace", path)
